@@ -374,8 +374,36 @@ def c15(ctx):
     ctx.validate(files)
 
 
+def timers_component(ctx):
+    """Timers.tla: exhaustive TLC over start/stop/close/advance interleavings of the rtx and ack timers,
+    TLC behaviours replayed lock-step into the real rtxTimer/ackTimer in virtual time, and the real
+    rtoManager's outputs validated against RtoNext."""
+    binp = ctx.harness()
+    for mr, mx in ((2, 4000), (0, 60000)) + (() if ctx.quick else ((0, 4000), (2, 60000))):
+        ctx.tlc_design("MC_Timers", "MC_Timers_%d_%d.cfg" % (mr, mx), workers=4, timeout=600)
+        path, nb = tlc_behaviours(ctx, "MC_Timers", "MC_Timers_%d_%d_sim.cfg" % (mr, mx), 160 if ctx.quick else 4000, 16)
+        out = ctx.scr.mkdir("timers")
+        p = L.run_harness(binp, "timers-replay", out, {"VF_IN": path, "VF_MAXRETRANS": mr, "VF_RTOMAX": mx})
+        if p.returncode != 0:
+            raise L.MachineryError("timers-replay failed: " + (p.stdout + p.stderr)[-2000:])
+        res = json.load(open(os.path.join(out, "timers-replay-%d-%d.json" % (mr, mx))))
+        ctx.replayed += res["ops"]
+        ctx.evaluations += res["ops"]
+        for m in res["mismatches"]:
+            ctx.add_violation("C19_Timers_" + m["field"], "timers-replay maxRetrans=%d rtoMax=%d" % (mr, mx), [m["op"], m["arg"], m["got"], m["step"]])
+        if len(ctx.samples) < 2:
+            ctx.samples.append({"timers_behaviour": open(path).readline()[:500]})
+    out = ctx.scr.mkdir("rto")
+    p = L.run_harness(binp, "rto-trace", out, {"VF_SEED": ctx.seed, "VF_N": 200 if ctx.quick else 5000})
+    if p.returncode != 0:
+        raise L.MachineryError("rto-trace failed: " + (p.stdout + p.stderr)[-2000:])
+    ctx.validate([os.path.join(out, "rto-0.ndjson")], module="RtoTrace", cfg="RtoTrace.cfg")
+    ctx.distinct.add(("timers-component",))
+
+
 @check("C19", ["C19_"])
 def c19(ctx):
+    timers_component(ctx)
     files = transfer_family(ctx, design=False)
     files += directed_traces(ctx, "api", 8)
     files += xfer_traces(ctx, ["reorder", "lossy", "basic", "clean"], 160, 4000)
